@@ -40,7 +40,7 @@ def _dispatch_chain(fi: FuncInfo) -> tuple[ast.While, list[ast.stmt]]:
     return loops[0], loops[0].body
 
 
-def _arm_class(body: list[ast.stmt]) -> str:
+def _arm_class(body: list[ast.stmt], op_var: str = "op") -> str:
     txt = " ".join(norm(s) for s in body)
     calls = {call_name(c) for s in body for c in ast.walk(s) if isinstance(c, ast.Call)}
     if "unknown_op_code" in calls:
@@ -51,7 +51,7 @@ def _arm_class(body: list[ast.stmt]) -> str:
         return "upgradable"
     if calls & {"op_if", "op_notif", "op_else", "op_endif"}:
         return "control"
-    if "encode_num" in calls and "int" in calls and "append" in calls and "op[3:]" in txt:
+    if "encode_num" in calls and "int" in calls and "append" in calls and f"{op_var}[3:]" in txt:
         return "smallint"
     return "op"
 
@@ -127,7 +127,7 @@ def classify_code(ctx: Ctx, dialect: str) -> dict[int, str]:
             else:
                 arm = cur.orelse
                 break
-        cls = _arm_class(arm or [])
+        cls = _arm_class(arm or [], op_var)
         if cls == "bad":
             cls = "always_bad" if b in evaluated else "bad_if_run"
         elif cls == "control" and b not in evaluated:
@@ -338,9 +338,11 @@ def rule_sig_rules(ctx: Ctx, rep: Report) -> None:
     ccs = refusal_constraints(ctx, co, accept_return=("False",))
     mx = SPEC.TAPROOT_CONTROL_BASE_SIZE + SPEC.TAPROOT_CONTROL_NODE_SIZE * SPEC.TAPROOT_CONTROL_MAX_NODE_COUNT
     rep.ob(rule, "control_max", has_bound(ccs, ">", mx, subject="len(control)") is not None, co.where(), f"len(control) > {mx} refused")
-    rep.ob(rule, "control_shape", any(c.subject == "len(control)" and c.op == "!=" and c.value_text.startswith("33 + 32 * m") for c in ccs), co.where(), "len(control) == 33 + 32m")
-    md = [n for n in own_nodes(co.node) if isinstance(n, ast.Assign) and norm(n.targets[0]) == "m"]
-    rep.ob(rule, "control_m", bool(md) and norm(md[0].value) == "(len(control) - 33) // 32", co.where(), f"m = {norm(md[0].value) if md else None}")
+    rep.ob(rule, "control_shape", any(c.subject == "len(control)" and c.op == "!=" and (c.value_text.split(" |")[0] == "33 + 32 * m" or c.value_text.split(" |")[0] == "32 * m + 33") for c in ccs), co.where(), "len(control) == 33 + 32m")
+    from sa import pattern as PT_
+    mm_: dict[str, str] = {}
+    md = PT_.find(co.node, "$m = (len(control) - 33) // 32", mm_)
+    rep.ob(rule, "control_m", md is not None, co.where(md), "m = (len(control) - 33) // 32")
     masks = {ctx.fold(n.right, co.module) for n in own_nodes(co.node) if isinstance(n, ast.BinOp) and isinstance(n.op, ast.BitAnd) and "control[0]" in norm(n.left)}
     rep.ob(rule, "control_masks", {0xFE, 1} <= masks, co.where(), f"leaf version mask and parity bit: {sorted(m for m in masks if isinstance(m, int))}")
     tu = ctx.func(f"{ENG}.taproot_unwrap_script")
